@@ -17,7 +17,7 @@
    the theorems establish, so no undefined behaviour is relied upon); `/` is Z.quot (truncation);
    `>>` on signed values is the arithmetic shift Z.shiftr; `&` is Z.land on two's complement. *)
 From Coq Require Import ZArith List Bool.
-From VV Require Import lib.PyInt gen.GenFpMath.
+From VV Require Import lib.PyInt lib.PyFloat gen.GenFpMath.
 Import ListNotations.
 Open Scope Z_scope.
 
@@ -277,6 +277,35 @@ Definition vela_prelu_entry (zp_in zp_out alpha_zp alpha_code identity_scale ide
                              qmin qmax x : Z) : option Z :=
   vela_lrelu_entry zp_in zp_out identity_scale identity_shift (vela_prelu_alpha_scalar alpha_code alpha_zp)
                    alpha_scale alpha_shift qmin qmax x.
+
+(* ---------------------------------------------------------------------------------------------
+   convert_mul_max_to_abs_or_lrelu: Maximum(x, Mul(x, c)) with a constant scalar c, either operand order.
+   A tensor as the rewrite sees it: the identity of its scale (a token: which float is read), zero point, and,
+   for the constant, its quantised code. *)
+Record qtensor := { q_scale : Z; q_zp : Z; q_code : Z }.
+
+(* the decision: val = (code - zero_point) * scale of the constant (exact in float64: 9 bits x 24 bits);
+   1 = LeakyRelu (0 <= val <= 1), 2 = Abs (val == -1), 0 = not rewritten *)
+Definition mulmax_kind (code zp : Z) (scale : dyadic) : Z :=
+  let val := dy_mul_int scale (code - zp) in
+  if dy_leb (dy_of_Z 0) val && dy_leb val (dy_of_Z 1) then 1
+  else if dy_leb (dy_of_Z (-1)) val && dy_leb val (dy_of_Z (-1)) then 2
+  else 0.
+
+(* the alpha_scaling attribute: (alpha_scalar, elementwise_mul_scale(ifm scale, CONSTANT's scale, Mul output scale)).
+   `qs` stands for scaling.elementwise_mul_scale on the scale tokens; the Mul's operands are (mul_in1, mul_in2) in
+   the order of the model file and `shared_first` says whether the feature map is the first of them:
+   const_tens = (set(mul.inputs) - {shared_in}).pop() *)
+Definition mulmax_alpha_scaling (qs : Z -> Z -> Z -> Z * Z) (ifm mul_in1 mul_in2 mul_ofm : qtensor)
+                                (shared_first : bool) : Z * (Z * Z) :=
+  let const_tens := if shared_first then mul_in2 else mul_in1 in
+  (q_code const_tens - q_zp const_tens, qs (q_scale ifm) (q_scale const_tens) (q_scale mul_ofm)).
+
+(* ... followed by convert_lrelu -> convert_lrelu_to_lut (identity multiplier from (ifm, 1, ofm) scales) *)
+Definition vela_mulmax_entry (qs : Z -> Z -> Z -> Z * Z) (ifm mul_in1 mul_in2 mul_ofm : qtensor) (shared_first : bool)
+                             (zp_out identity_scale identity_shift qmin qmax x : Z) : option Z :=
+  let '(alpha_scalar, (alpha_scale, alpha_shift)) := mulmax_alpha_scaling qs ifm mul_in1 mul_in2 mul_ofm shared_first in
+  vela_lrelu_entry (q_zp ifm) zp_out identity_scale identity_shift alpha_scalar alpha_scale alpha_shift qmin qmax x.
 
 (* convert_hardswish_to_lut, one table entry, from the already quantised scales
    (out_scale, out_shift) = quantise_scale(ifm_scale/128/ofm_scale),
